@@ -18,7 +18,7 @@ uses is the SAME `N.…` call here (`+ - * / ^`, unary minus, `< <=`, `len as f6
 computed by darklua as `floor(a/b)` and `a - b*floor(a/b)`: modelled literally (with `N.floor`).
 `==` on numbers is IEEE equality (`N.eq`; the former `(a - b).abs() < f64::EPSILON` test was finding
 F1/F2, fixed). What darklua does differently from Lua is an extra primitive in `EvalOps`:
-* `fmtRust x`   — `f64::to_string` (`string_coercion`)
+* `fmtRust x`   — `f64::to_string` (`string_coercion`, used only where it is also Lua's text: `luaNumberToString`)
 * `parseLit s`  — `s.parse::<NumberExpression>().ok().map(compute_value)` on UTF-8 text
                   (`number_coercion`, after `from_utf8`, `trim` and the leading `-` are handled here)
 The executable instance over `Float` is in `Rules/EvaluatorFloat.lean`.
@@ -145,9 +145,30 @@ def LuaValue.numberCoercion (E : EvalOps N) : LuaValue N → LuaValue N
     | none => .string s
   | v => v
 
+/-- `lua_number_to_string` (lua_value.rs): the Rust text of a number, only when the number is written in
+plain notation (`0`, or `1e-4 ≤ |x| < 1e14`) with at most 14 significant digits — where Lua 5.1's `%.14g`,
+Luau's shortest round-trip format and Rust's `to_string` give the same text (F3, fixed) -/
+def luaNumberToString (E : EvalOps N) (x : N.F) : Option (List UInt8) :=
+  let lo : N.F := N.ofBits 0x3F1A36E2EB1C432D   -- 1e-4
+  let hi : N.F := N.ofBits 0x42D6BCC41E900000   -- 1e14
+  -- `(1e-4..1e14).contains(&v)`
+  let inRange (v : N.F) : Bool := N.le lo v && N.lt v hi
+  let plainNotation := N.eq x (N.ofNat 0) || inRange x || inRange (N.neg x)
+  if !plainNotation then none
+  else
+    let text := E.fmtRust x
+    -- `text.trim_start_matches(['-', '0', '.']).trim_end_matches('0').bytes().filter(u8::is_ascii_digit).count()`
+    let t1 := text.dropWhile fun b => b == 45 || b == 48 || b == 46
+    let t2 := (t1.reverse.dropWhile (· == 48)).reverse
+    let significant := (t2.filter fun b => 48 ≤ b && b ≤ 57).length
+    if significant ≤ 14 then some text else none
+
 /-- `LuaValue::string_coercion` -/
 def LuaValue.stringCoercion (E : EvalOps N) : LuaValue N → LuaValue N
-  | .number x => .string (E.fmtRust x)
+  | .number x =>
+    match luaNumberToString E x with
+    | some t => .string t
+    | none => .number x
   | v => v
 
 /-! ### `evaluate` -/
